@@ -291,11 +291,11 @@ func (s *scn) runReturned() bool {
 func (s *scn) has(ev string) bool { return s.rec.Has(ev) }
 
 func (s *scn) quiesce() bool {
-	ok := s.rec.WaitQuiescent(3 * time.Second)
-	if ok {
-		s.rec.Emit("Quiet")
+	c := s.rec.QuiescentAt(3 * time.Second)
+	if c < 0 {
+		return false
 	}
-	return ok
+	return s.rec.EmitIfCount(c, "Quiet")
 }
 
 func (s *scn) apiCall(op string, f func()) {
@@ -315,11 +315,11 @@ func (s *scn) apiCall(op string, f func()) {
 }
 
 func (s *scn) snap() {
-	if !s.rec.WaitQuiescent(3 * time.Second) {
+	cnt := s.rec.QuiescentAt(3 * time.Second)
+	if cnt < 0 {
 		s.rec.Emit("NoQuiesce")
 		return
 	}
-	cnt := s.rec.Count()
 	s.mu.Lock()
 	var bl []int
 	for k := range s.pending {
@@ -334,12 +334,11 @@ func (s *scn) snap() {
 	gor := director.LibraryGoroutines()
 	ret := s.runReturned()
 	ms := s.mapStr(s.sup.GetStateMap())
-	// nothing may have moved while we looked
-	if !s.rec.WaitQuiescentN(time.Second, 2, 200*time.Microsecond) || cnt != s.rec.Count() {
+	// nothing may have moved while we looked: still quiescent, and no event since cnt (checked atomically)
+	if !s.rec.WaitQuiescentN(time.Second, 2, 200*time.Microsecond) ||
+		!s.rec.EmitIfCount(cnt, "Snap blocked=%s smap=%s ret=%d gor=%d", strings.Join(bs, "+"), ms, b2i(ret), len(gor)) {
 		s.rec.Emit("NoQuiesce")
-		return
 	}
-	s.rec.Emit("Snap blocked=%s smap=%s ret=%d gor=%d", strings.Join(bs, "+"), ms, b2i(ret), len(gor))
 }
 
 type action struct {
